@@ -7,23 +7,17 @@ From NV Require Import Io.Source Io.ReadExact Io.ReadExactProofs Io.BufReader Io
 Import ListNotations.
 Local Open Scope nat_scope.
 
-Lemma rep_src_fuel' : forall s d m n, rep_src s d m -> m + n < src_fuel s n.
-Proof. intros s d m n [_ Hm]. unfold src_fuel. lia. Qed.
+(* a bound on the pending Interrupted results is kept by every read *)
+Definition bounded {S : Type} (Rep : S -> list N -> nat -> Prop) (b : nat) : S -> list N -> nat -> Prop :=
+  fun s d m => Rep s d m /\ m <= b.
 
-Lemma rep_buf_fuel : forall st d m n, rep_buf rep_src st d m -> m + n < b_fuel st n.
-Proof. intros st d m n [d' [_ [_ Hm]]]. unfold b_fuel, src_fuel. lia. Qed.
-
-Lemma rep_buf_fuelu : forall st d m, rep_buf rep_src st d m -> m + length d + 1 < b_fuel st 0.
+Lemma simulates_bounded : forall (S : Type) (rd : reader S) (Rep : S -> list N -> nat -> Prop) b,
+  simulates rd Rep -> simulates rd (bounded Rep b).
 Proof.
-  intros st d m [d' [Hd [Hs Hm]]]. unfold b_fuel, src_fuel. rewrite Hd, app_length, Hs. lia.
-Qed.
-
-Lemma rep_src_left : forall s d m, rep_src s d m -> src_left s = length d.
-Proof. intros s d m [Hs _]. unfold src_left. rewrite Hs. reflexivity. Qed.
-
-Lemma rep_buf_left : forall st d m, rep_buf rep_src st d m -> b_left st = length d.
-Proof.
-  intros st d m [d' [Hd [Hs _]]]. unfold b_left. rewrite Hd, app_length, Hs. reflexivity.
+  intros S rd Rep b Hsim s d m n [HR Hb]. pose proof (Hsim s d m n HR) as H.
+  destruct (rd s n) as [[bs|] s'].
+  - destruct H as [Hok [m' [Hm' HR']]]. split; [exact Hok|]. exists m'. split; [exact Hm'|]. split; [exact HR'|lia].
+  - destruct H as [m' [Hm' HR']]. exists m'. split; [exact Hm'|]. split; [exact HR'|lia].
 Qed.
 
 Theorem run_prog_spec : forall (A : Type) (p : prog A) data sc cap chunk,
@@ -31,18 +25,24 @@ Theorem run_prog_spec : forall (A : Type) (p : prog A) data sc cap chunk,
   run_prog cap chunk p (mkSource data sc)
   = (cres_of (fst (run_pure p data)), length (snd (run_pure p data))).
 Proof.
-  intros A p data sc cap chunk Hu. unfold run_prog.
+  intros A p data sc cap chunk Hu. unfold run_prog. cbn [s_script].
+  set (f0 := n_interrupted sc).
+  pose proof (simulates_bounded source src_read rep_src f0 src_simulates) as Hsim.
+  assert (HR0 : bounded rep_src f0 (mkSource data sc) data f0).
+  { split; [split; reflexivity|lia]. }
   destruct (Nat.eqb_spec cap 0) as [Hc|Hc].
-  - destruct (run_raw_spec source src_read rep_src src_simulates (fun _ => chunk) src_fuel rep_src_fuel'
-                A p (Hu Hc) (mkSource data sc) data (n_interrupted sc) (conj eq_refl eq_refl))
-      as [s' [m' [E [HR _]]]].
-    rewrite E. rewrite (rep_src_left _ _ _ HR). reflexivity.
-  - destruct (run_buf_spec source src_read rep_src src_simulates cap ltac:(lia) (fun _ => chunk)
-                b_fuel (fun st => b_fuel st 0) rep_buf_fuel rep_buf_fuelu
-                A p ([], mkSource data sc) data (n_interrupted sc))
-      as [st' [m' [E [HR _]]]].
-    + exists data. cbn [fst snd app]. split; [reflexivity|]. split; reflexivity.
-    + rewrite E. rewrite (rep_buf_left _ _ _ HR). reflexivity.
+  - destruct (run_raw_spec source src_read (bounded rep_src f0) Hsim (fun _ => chunk) (fun _ n => f0 + n + 1)
+                ltac:(intros s d m n [_ Hb]; lia) A p (Hu Hc) (mkSource data sc) data f0 HR0)
+      as [s' [m' [E [[[Hs _] _] _]]]].
+    rewrite E. unfold src_left. rewrite Hs. reflexivity.
+  - destruct (run_buf_spec source src_read (bounded rep_src f0) Hsim cap ltac:(lia) (fun _ => chunk)
+                (fun _ n => f0 + n + 1) (fun st => f0 + b_left st + 2)
+                ltac:(intros st d m n [d' [_ [_ Hb]]]; lia)
+                ltac:(intros st d m [d' [Hd [[Hs _] Hb]]]; unfold b_left; rewrite Hd, app_length, Hs; lia)
+                A p ([], mkSource data sc) data f0)
+      as [st' [m' [E [[d' [Hd [[Hs _] _]]] _]]]].
+    + exists data. cbn [fst snd app]. split; [reflexivity|exact HR0].
+    + rewrite E. unfold b_left. rewrite Hd, app_length, Hs. reflexivity.
 Qed.
 
 (* the entry points *)
